@@ -16,4 +16,14 @@ PROPS = {
         assumptions=['ing_raw_on_success: an ingester returns a raw record whenever it reports success '
                      '(proved for the built-in ingester; required of caller-supplied ones)'],
     ),
+    'C07': dict(
+        harness='c07', props='Props/C07.v', models=['Model/Edi.v'],
+        trusted=['go-corelib strs.ByteIndexWithEsc/ByteSplitWithEsc/ByteUnescape and the parts of Go bytes.Index/bytes.Split they fall back to are transcribed by hand from go-corelib@v0.0.14 (outside /repo); tied to the code by the correspondence cases only',
+                 'the byte-stream scanner (bufio.Scanner + ios.NewScannerByDelim3, 128-byte initial buffer, growth) is modelled as the pure function scan_tokens (cut after every unescaped segment delimiter, drop what follows the last one) and ignore_crlf (two ios.BytesReplacingReader) as strip_crlf; chunking/buffer growth is property C09; the harness feeds segments longer than the initial buffer through full/half/one-byte readers so a slicing fault at growth fails the oracle',
+                 'the segment hierarchy machine of ediReader is property C05; here the full reader runs over one non-group segment declaration (min 0, max unbounded)',
+                 'utf8.DecodeRune as transcribed in Base/Utf8.v; rune/segment counters and error message texts are not modelled'],
+        assumptions=['cfg_ok (edi_roundtrip, edi_elem_nodes): delimiters in use and the release character are non-empty, start with pairwise distinct ASCII bytes, and none of those first bytes occurs at a later position of any of them',
+                     'segs_ok: segment name non-empty (not CR/LF-only when the segment delimiter is); without a release character no data byte starts a delimiter; with ignore_crlf no CR/LF in data or delimiters; with LF as segment delimiter no value or delimiter ends a segment with CR',
+                     'input ends with a segment delimiter (what follows the last one is dropped: DESIGN section 6 F8, property C05)'],
+    ),
 }
